@@ -64,6 +64,7 @@ Field(cs, i, nested, expr, delims, conv, sd, trail, spec, log) ==
          ELSE Field(cs, i + 2, nested, expr, delims, nx, sd, trail, spec, log)
   ELSE IF ch = "=" /\ delims = <<>>                                            \* (nx # "=" here)
     THEN IF AllBlank(expr) THEN Err("EmptyExpression", i, log)
+         ELSE IF sd THEN Err("UnclosedLbrace", i, log)
          ELSE Field(cs, i + 1, nested, expr, delims, conv, TRUE, trail, spec, log)
   ELSE IF ch = ":" /\ delims = <<>>
     THEN LET r == SpecScan(cs, i + 1, nested, <<>>, "", log) IN
@@ -80,7 +81,7 @@ Field(cs, i, nested, expr, delims, conv, sd, trail, spec, log) ==
                   c == IF sd /\ conv = "" /\ ~spec.has THEN "r" ELSE conv
                   f == Fld(e, c, spec.has, spec.parts) IN
               Ok(IF sd THEN <<Txt(e \o "="), Txt(Cat(trail)), f>> ELSE <<f>>, i + 1, Append(log, e))
-  ELSE IF ch = "'"
+  ELSE IF ch = "'" /\ ~sd
     THEN LET s == StrAt(cs, i + 1) IN
          IF s.pos = 0 THEN Err("UnterminatedString", i, log)
          ELSE Field(cs, s.pos, nested, expr \o s.text, delims, conv, sd, trail, spec, log)
